@@ -39,7 +39,8 @@ Definition sx_sub_result (r : option (value * nat)) : sx :=
 
 (* oracles as tables *)
 Definition tbl_conv (t : list (ty * value * option value)) (ty0 : ty) (v : value) : option value :=
-  match find (fun x => ty_eqb (fst (fst x)) ty0 && value_eqb (snd (fst x)) v) t with
+  (* set iteration order is not part of the key: compare the renderings, which sort set members *)
+  match find (fun x => ty_eqb (fst (fst x)) ty0 && sx_eqb (sx_value (snd (fst x))) (sx_value v)) t with
   | Some x => snd x
   | None => None
   end.
